@@ -443,6 +443,35 @@ def m_long_target(segs, rng):
     return True
 
 
+def m_form_method_cross(segs, rng):
+    """Request-target FORM crossed with METHOD (RFC 9112 3.2.1-3.2.4): asterisk-form with a method other than
+    OPTIONS, authority-form with a method other than CONNECT, CONNECT with origin- / absolute- / asterisk-form;
+    plus the two legal special pairs (OPTIONS *, OPTIONS with absolute-form) as controls.  Headers and body
+    framing of the request stay as they are (so 'POST *' keeps its body)."""
+    method, target, version = segs[0][1].split(" ", 2)
+    other = [m for m in METHODS + ["TRACE", "PROPFIND", "connectx", "OPTION", "OPTIONSX"] if m.upper() not in ("OPTIONS", "CONNECT")]
+    kind = rng.choice(["asterisk", "asterisk", "asterisk", "authority", "connect_origin", "connect_absolute",
+                       "connect_asterisk", "options_asterisk", "options_absolute"])
+    if kind == "asterisk":
+        m = method if method.upper() not in ("OPTIONS", "CONNECT") and rng.random() < 0.6 else rng.choice(other)
+        t = "*"
+    elif kind == "authority":
+        m = method if method.upper() != "CONNECT" and rng.random() < 0.6 else rng.choice(other + ["OPTIONS"])
+        t = rng.choice(["h.test:80", "h.test", "10.0.0.1:80", "[::1]:80", "u@h.test:80"])
+    elif kind == "connect_origin":
+        m, t = rng.choice(["CONNECT", "connect"]), rng.choice(TARGETS[:6] + ["/h.test:80"])
+    elif kind == "connect_absolute":
+        m, t = "CONNECT", rng.choice(ABS_TARGETS[:3])
+    elif kind == "connect_asterisk":
+        m, t = "CONNECT", "*"
+    elif kind == "options_asterisk":
+        m, t = rng.choice(["OPTIONS", "options"]), "*"
+    else:
+        m, t = "OPTIONS", rng.choice(ABS_TARGETS[:2] + ["http://h.test/*"])
+    segs[0][1] = f"{m} {t} {version}"
+    return True
+
+
 MUTATIONS = {
     "cl_te": m_cl_te,
     "cl_repeat": m_cl_repeat,
@@ -522,6 +551,7 @@ MUTATIONS = {
     "rl_empty_method": _rl_variant(lambda m, t, v, r: f" {t} {v}"),
     "rl_authority_non_connect": _rl_variant(lambda m, t, v, r: f"{m} h.test:80 {v}"),
     "rl_garbage": _rl_variant(lambda m, t, v, r: r.choice(["\x16\x03\x01\x02\x00\x01", "GET", "", "\xff\xfe"])),
+    "rl_form_method_cross": m_form_method_cross,
     "many_headers": m_many_headers,
     "long_field": m_long_field,
     "long_target": m_long_target,
